@@ -84,7 +84,8 @@ namespace ip {
 				, [&](result_t const& r) { return r.completion_time > t; });
 			m_queue.insert(pos, std::move(res));
 			m_timer.expires_at(m_queue.front().completion_time);
-			m_timer.async_wait(aux::make_malloc(std::bind(&basic_resolver::on_lookup, this, _1)));
+			m_timer.async_wait(aux::make_malloc([this, alive = std::weak_ptr<bool>(m_alive)](boost::system::error_code const& e)
+			{ if (!alive.expired()) on_lookup(e); }));
 			return;
 		}
 		ec.clear();
@@ -110,7 +111,8 @@ namespace ip {
 		m_queue.emplace_back(std::move(res));
 
 		m_timer.expires_at(m_queue.front().completion_time);
-		m_timer.async_wait(aux::make_malloc(std::bind(&basic_resolver::on_lookup, this, _1)));
+		m_timer.async_wait(aux::make_malloc([this, alive = std::weak_ptr<bool>(m_alive)](boost::system::error_code const& e)
+			{ if (!alive.expired()) on_lookup(e); }));
 	}
 
 	template<typename Protocol>
@@ -135,7 +137,8 @@ namespace ip {
 		if (!m_queue.empty())
 		{
 			m_timer.expires_at(m_queue.front().completion_time);
-			m_timer.async_wait(aux::make_malloc(std::bind(&basic_resolver::on_lookup, this, _1)));
+			m_timer.async_wait(aux::make_malloc([this, alive = std::weak_ptr<bool>(m_alive)](boost::system::error_code const& e)
+			{ if (!alive.expired()) on_lookup(e); }));
 		}
 		v.handler(v.err, std::move(v.ips));
 	}
